@@ -42,6 +42,8 @@ PARTIAL = ['next() on shuffled_clients() of an EMPTY view never returns (while T
 CASE_TIMEOUT = 60
 
 PIPES = ['mem', 'sql', 'submem', 'subsql']
+# the extra feature column w = f(original x): dtypes the SQLite (msgpack) path supports
+WKINDS = ['none', 'float16', 'uint8', 'bool', 'int8', 'int32big', 'complex64', 'datetime64[D]', 'object', 'float64']
 COQ_PIPE = {'mem': 'PMem', 'sql': 'PSql', 'submem': 'PSubMem', 'subsql': 'PSubSql'}
 
 POOL = [b'', b'\x00', b'\x00\x00', b'a', b'a\x00', b'a\x00\x00', b'a\x01', b'aa', b'ab', b'a\xff', b'b',
@@ -161,7 +163,11 @@ def gen_case(rng, max_clients=6, max_ops=6):
       req.insert(rng.randrange(len(req) + 1), rng.choice(universe))
     reqs.append([hx(i) for i in req])
   return {'ds': ds, 'aliens': [hx(a) for a in aliens], 'ops': ops, 'reqs': reqs,
-          'mid': rng.randrange(0, len(ops) + 1), 'buf': rng.randrange(1, n + 3), 'seed': rng.randrange(1000)}
+          'mid': rng.randrange(0, len(ops) + 1), 'buf': rng.randrange(1, n + 3),
+          'seed': rng.choice([0, 0, None, rng.randrange(1000), rng.randrange(1000), rng.randrange(1000)]),
+          'wk': rng.randrange(0, len(WKINDS)),       # dtype of the extra feature column w
+          'forms': rng.randrange(0, 1000),           # rotates argument delivery / call forms
+          'bufnp': rng.random() < 0.3}               # buffer_size as np.int64
 
 
 def _fixed_cases():
@@ -233,10 +239,46 @@ def _bfn(spec):
   raise ValueError(spec)
 
 
-def _examples(rows):
+def _wcol(orig, wk):
+  """The extra column as a function of the ORIGINAL x value of each row."""
+  x = np.array(orig, dtype=np.int64).reshape(len(orig))
+  k = WKINDS[wk]
+  if k == 'float16':
+    return (x / 2).astype(np.float16)
+  if k == 'uint8':
+    return (x % 256).astype(np.uint8)
+  if k == 'bool':
+    return x % 2 == 0
+  if k == 'int8':
+    return (x * 13 - 128).astype(np.int8)
+  if k == 'int32big':
+    return (x + 2 ** 24 + 1).astype(np.int32)      # not representable in float32
+  if k == 'complex64':
+    return (x + 1j * (x + 1)).astype(np.complex64)
+  if k == 'datetime64[D]':
+    return x.astype('datetime64[D]')
+  if k == 'object':
+    return np.array([b'r%d\x00' % v for v in orig] + [None], dtype=object)[:-1]
+  if k == 'float64':
+    return x * 0.1
+  return None
+
+
+def _wobs(w):
+  if w is None:
+    return None
+  w = np.asarray(w)
+  return [w.dtype.name, list(w.shape), [hx(v) for v in w] if w.dtype == object else w.tobytes().hex()]
+
+
+def _examples(rows, wk=0):
   x = np.array(rows, dtype=np.int64).reshape(len(rows))
   y = np.stack([x * 2, x * 2 + 1], axis=1).astype(np.int32).reshape(len(rows), 2)
-  return {'x': x, 'y': y}
+  ex = {'x': x, 'y': y}
+  w = _wcol(rows, wk)
+  if w is not None:
+    ex['w'] = w
+  return ex
 
 
 def _err(ex):
@@ -254,9 +296,13 @@ def _dsobs(d):
   raw, al = d.raw_examples, d.all_examples()
   meta = ';'.join(f'{k}:{v.dtype}:{"x".join(map(str, v.shape[1:]))}' for k, v in sorted(raw.items()))
   meta_a = ';'.join(f'{k}:{v.dtype}:{"x".join(map(str, v.shape[1:]))}' for k, v in sorted(al.items()))
-  return {'x': [int(v) for v in raw['x']], 'ax': [int(v) for v in al['x']],
-          'y': [int(v) for v in np.asarray(raw['y']).reshape(-1)], 'ay': [int(v) for v in np.asarray(al['y']).reshape(-1)],
-          'n': len(d), 'meta': meta if meta == meta_a else meta + ' / ' + meta_a}
+  r = {'x': [int(v) for v in raw['x']], 'ax': [int(v) for v in al['x']],
+       'y': [int(v) for v in np.asarray(raw['y']).reshape(-1)], 'ay': [int(v) for v in np.asarray(al['y']).reshape(-1)],
+       'n': len(d), 'meta': meta if meta == meta_a else meta + ' / ' + meta_a}
+  if 'w' in raw or 'w' in al:
+    r['w'] = _wobs(raw.get('w'))
+    r['aw'] = _wobs(al.get('w'))
+  return r
 
 
 def _end(ex):
@@ -328,7 +374,7 @@ class RecRng(np.random.RandomState):
     return r
 
 
-def _shuffled(fd, buf, seed, count, after=None):
+def _shuffled(fd, buf, seed, count, after=None, kw=False):
   """`count` items of shuffled_clients(buf, seed), with the random choices of the RandomState the
   implementation creates (np.random.RandomState is replaced by the recording subclass meanwhile)."""
   orig = np.random.RandomState
@@ -336,7 +382,8 @@ def _shuffled(fd, buf, seed, count, after=None):
   RecRng.max_passes = count + 2      # every pass of a non-empty view yields at least one client
   np.random.RandomState = RecRng
   try:
-    out = _stream(itertools.islice(fd.shuffled_clients(buf, seed), count), after)
+    it = fd.shuffled_clients(buffer_size=buf, seed=seed) if kw else fd.shuffled_clients(buf, seed)
+    out = _stream(itertools.islice(it, count), after)
   finally:
     np.random.RandomState = orig
   made = RecRng.made
@@ -344,6 +391,59 @@ def _shuffled(fd, buf, seed, count, after=None):
   rec = {'n_rng': len(made), 'codes': [c for r in made for c in r.codes],
          'draws': [d for r in made for d in r.draws], 'contract': all(r.contract for r in made)}
   return out + [rec]
+
+
+class OneShot:
+  """A one-shot iterator that counts how far it was consumed."""
+
+  def __init__(self, items):
+    self._it, self.taken, self.exhausted = iter(list(items)), 0, False
+
+  def __iter__(self):
+    return self
+
+  def __next__(self):
+    try:
+      v = next(self._it)
+    except StopIteration:
+      self.exhausted = True
+      raise
+    self.taken += 1
+    return v
+
+
+FORMS = ['list', 'tuple', 'generator', 'iter', 'map', 'dictkeys', 'oneshot', 'set', 'frozenset']
+
+
+def _deliver(ids, sel, allow_sets=False):
+  """The same ids delivered as another kind of iterable (request order kept unless a set is allowed)."""
+  ids = list(ids)
+  names = FORMS if allow_sets else FORMS[:7]
+  form = names[sel % len(names)]
+  if form == 'dictkeys' and len(set(ids)) != len(ids):
+    form = 'tuple'          # a dict view cannot repeat an id
+  if form == 'list':
+    return form, list(ids)
+  if form == 'tuple':
+    return form, tuple(ids)
+  if form == 'generator':
+    return form, (i for i in ids)
+  if form == 'iter':
+    return form, iter(ids)
+  if form == 'map':
+    return form, map(bytes, ids)
+  if form == 'dictkeys':
+    return form, dict.fromkeys(ids).keys()
+  if form == 'oneshot':
+    return form, OneShot(ids)
+  if form == 'set':
+    return form, set(ids)
+  return form, frozenset(ids)
+
+
+def _np_id(i, sel):
+  """Every third eligible id is passed as numpy.bytes_ (a bytes subclass; it cannot hold a trailing NUL)."""
+  return np.bytes_(i) if (sel % 3 == 0 and i and not i.endswith(b'\x00')) else i
 
 
 def _interleaved(fd, o, universe, others, buf, seed):
@@ -392,91 +492,191 @@ def _interleaved(fd, o, universe, others, buf, seed):
   r['ids'] = _plain(fd.client_ids(), hx, probe)
   r['sizes'] = _plain(fd.client_sizes(), lambda kv: [hx(kv[0]), int(kv[1])], probe)
   r['shuffled'] = _shuffled(fd, buf, seed, n, probe) if n > 0 else [[], 'D', {'n_rng': 0, 'codes': [], 'draws': [], 'contract': True}]
+  # two live iterators over the same view, advanced alternately
+  a, b = fd.clients(), fd.clients()
+  la, lb = [], []
+  try:
+    for _ in range(n + 1):
+      for it_, l_ in ((a, la), (b, lb)):
+        x = next(it_, None)
+        if x is not None:
+          l_.append([hx(x[0]), _dsobs(x[1])])
+    r['two_live'] = [la, lb]
+  except Exception as ex:  # pylint: disable=broad-except
+    r['two_live'] = [la, lb, _end(ex)]
+  ia, ib = fd.client_ids(), fd.client_ids()
+  r['two_live_ids'] = _call(lambda: [[hx(x), hx(y)] for x, y in zip(ia, ib)])
+  # one pass consumed in pieces: islice, a bare iter(), then the rest; and a broken for loop before a full pass
+  def pieces():
+    it_ = fd.clients()
+    first = list(itertools.islice(it_, 1))
+    rest = list(iter(it_))
+    return [[hx(c), _dsobs(d)] for c, d in first + rest]
+  r['pieces'] = _call(pieces)
+  def broken():
+    for _x in fd.clients():
+      break
+    for _x in fd.client_sizes():
+      break
+    return _stream(fd.clients())
+  r['broken_for'] = _call(broken)
   r['probes_ok'] = state['ok']
   r['first_bad'] = state['first_bad']
   return r
 
 
-def _observe(fd, universe, reqs, buf, seed, others=None):
+def _observe(fd, universe, reqs, buf, seed, others=None, forms=0):
   o = {}
   o['num'] = _call(lambda: int(fd.num_clients()))
   o['ids'] = _call(lambda: [hx(i) for i in fd.client_ids()])
   o['sizes'] = _call(lambda: [[hx(i), int(n)] for i, n in fd.client_sizes()])
-  o['size'] = [_call(lambda i=i: int(fd.client_size(i))) for i in universe]
+  o['size'] = [_call(lambda i=i, k=k: int(fd.client_size(_np_id(i, forms + k)))) for k, i in enumerate(universe)]
   o['clients'] = _stream(fd.clients())
   o['det'] = _stream(fd.clients()) == o['clients'] and _call(lambda: [hx(i) for i in fd.client_ids()]) == o['ids']
   n = o['num'][1] if o['num'][0] == 'V' else 0
   if n > 0:   # two passes of the endless shuffled stream (an empty view has nothing to take)
-    o['shuffled'] = _shuffled(fd, buf, seed, 2 * n)
+    o['shuffled'] = _shuffled(fd, buf, seed, 2 * n, kw=bool(forms % 2))
   else:
     o['shuffled'] = [[], 'D', {'n_rng': 0, 'codes': [], 'draws': [], 'contract': True}]
-  o['get'] = [_call(lambda i=i: _dsobs(fd.get_client(i))) for i in universe]
-  o['gets'] = [_stream(fd.get_clients(list(r))) for r in reqs]
+  o['get'] = [_call(lambda i=i, k=k: _dsobs(fd.get_client(_np_id(i, forms + k + 1)))) for k, i in enumerate(universe)]
+  o['gets'], o['gets_form'] = [], []
+  for k, r in enumerate(reqs):      # the request delivered as a list / tuple / generator / iterator / map / dict view / one-shot
+    form, arg = _deliver(r, forms + k)
+    g = _stream(fd.get_clients(arg))
+    o['gets'].append(g)
+    o['gets_form'].append([form, arg.taken, arg.exhausted] if form == 'oneshot' else [form])
   if others is not None:
     o['inter'] = _interleaved(fd, o, universe, others, buf, seed)
   return o
 
 
+def _snapshot(mapping):
+  """Array-level and container-level state of a caller-owned {id: {feature: array}} mapping."""
+  return [[hx(i), [[k, v.dtype.str, list(v.shape), ([hx(e) for e in v] if v.dtype == object else v.tobytes().hex()), id(v)]
+                   for k, v in ex.items()]] for i, ex in mapping.items()]
+
+
+def _apply(fdm, cur, o, sel):
+  """One operation on a view, through a rotating call form.  Returns (new view, refused, caller container intact)."""
+  if o[0] == 'slice':
+    st, sp = unhx(o[1]), unhx(o[2])
+    f = sel % 3
+    if f == 0:
+      return cur.slice(st, sp), False, True
+    if f == 1:
+      return cur.slice(start=st, stop=sp), False, True
+    kw = {k: v for k, v in (('start', st), ('stop', sp)) if v is not None}   # omitted = None
+    return cur.slice(**kw), False, True
+  if o[0] == 'subset':
+    ids = [unhx(x) for x in o[1]]
+    form, arg = _deliver(ids, sel, allow_sets=True)
+    before = list(arg) if form in ('list', 'tuple', 'dictkeys') else (set(arg) if form in ('set', 'frozenset') else None)
+    try:
+      new = fdm.SubsetFederatedData(cur, arg) if sel % 2 else fdm.SubsetFederatedData(base=cur, client_ids=arg, validate=True)
+      refused = False
+    except ValueError:
+      new, refused = cur, True
+    intact = before is None or (list(arg) == before if isinstance(before, list) else set(arg) == before)
+    return new, refused, intact
+  if o[0] == 'prec':
+    return cur.preprocess_client(_cfn(o[1])), False, True
+  if o[0] == 'preb':
+    return cur.preprocess_batch(_bfn(o[1])), False, True
+  raise ValueError(o)
+
+
 def run(case):
+  import collections
+  import sqlite3
+  import types
+  from fedjax.core import client_datasets as cdm
   from fedjax.core import federated_data as fdm
   from fedjax.core import in_memory_federated_data as imm
   from fedjax.core import sqlite_federated_data as sqm
+  wk, forms = case.get('wk', 0), case.get('forms', 0)
   ds = [(unhx(i), rows) for i, rows in case['ds']]
   ids = [i for i, _ in ds]
   universe = ids + [unhx(a) for a in case['aliens']]
   reqs = [[unhx(i) for i in r] for r in case['reqs']]
+  buf = np.int64(case['buf']) if case.get('bufnp') else case['buf']
+  seed = case['seed']
   tmp = tempfile.mkdtemp(prefix='c08-')
   conns = []
   try:
     path = os.path.join(tmp, 'fd.sqlite')
+    owned = {i: _examples(rows, wk) for i, rows in ds}       # the caller's data: must stay as it is
+    snap = _snapshot(owned)
     with sqm.SQLiteFederatedDataBuilder(path) as b:
-      b.add_many([(i, _examples(rows)) for i, rows in ds])
-    mem = imm.InMemoryFederatedData({i: _examples(rows) for i, rows in ds})
+      if forms % 2:
+        b.add_many((i, owned[i]) for i in ids)               # a generator
+      else:
+        b.add_many([(i, owned[i]) for i in ids])
+    mapping = [owned, collections.OrderedDict(owned),
+               types.MappingProxyType({i: types.MappingProxyType(e) for i, e in owned.items()})][forms % 3]
+    mem = imm.InMemoryFederatedData(mapping)
     sql = sqm.SQLiteFederatedData.new(path)      # the documented way to open a file
-    import sqlite3
-    conn2 = sqlite3.connect(path)
+    conn2, conn3 = sqlite3.connect(path), sqlite3.connect(path)
     sql2 = sqm.SQLiteFederatedData(conn2, sqm.decompress_and_deserialize)   # the direct constructor
-    conns += [getattr(sql, '_connection', None), conn2]  # closed below; the file is removed with the directory
+    conns += [getattr(sql, '_connection', None), conn2, conn3]  # closed below; the file is removed with the directory
+    all_ids_set = set(ids)
     roots = {'mem': mem, 'sql': sql,
-             'submem': fdm.SubsetFederatedData(mem, list(ids)),
-             'subsql': fdm.SubsetFederatedData(sql2, set(ids))}
-    views, before, refused = {}, {}, {}
-    for p in PIPES:
+             'submem': fdm.SubsetFederatedData(mem, _deliver(ids, forms + 3, True)[1]),
+             'subsql': fdm.SubsetFederatedData(sql2, all_ids_set)}
+    kept = {p: (roots[p].get_client(ids[0]) if ids else None) for p in PIPES}   # results the caller keeps
+    kept_before = {p: (_dsobs(kept[p]) if ids else None) for p in PIPES}
+    views, before, refused, intact = {}, {}, {}, True
+    for pi, p in enumerate(PIPES):
       cur = roots[p]
-      views[p], before[p], refused[p] = [cur], [_observe(cur, universe, reqs, case['buf'], case['seed'])], []
-      for o in case['ops']:
-        if o[0] == 'slice':
-          cur = cur.slice(unhx(o[1]), unhx(o[2]))
-          refused[p].append(False)
-        elif o[0] == 'subset':
-          try:
-            cur = fdm.SubsetFederatedData(cur, [unhx(x) for x in o[1]])
-            refused[p].append(False)
-          except ValueError:
-            refused[p].append(True)
-        elif o[0] == 'prec':
-          cur = cur.preprocess_client(_cfn(o[1]))
-          refused[p].append(False)
-        elif o[0] == 'preb':
-          cur = cur.preprocess_batch(_bfn(o[1]))
-          refused[p].append(False)
-        else:
-          raise ValueError(o)
+      views[p], before[p], refused[p] = [cur], [_observe(cur, universe, reqs, buf, seed, None, forms + pi)], []
+      for oi, o in enumerate(case['ops']):
+        cur, r, ok = _apply(fdm, cur, o, forms + oi + pi)
+        intact &= ok
+        refused[p].append(r)
         views[p].append(cur)
-        before[p].append(_observe(cur, universe, reqs, case['buf'], case['seed']))
+        before[p].append(_observe(cur, universe, reqs, buf, seed, None, forms + pi))
+    # siblings: from EVERY view derive further, different children and use them; none of this may be
+    # visible through the views built above
+    alt = unhx(case['aliens'][0]) if case['aliens'] else b'a'
+    nops = len(case['ops'])
+    focus = sorted({0, min(case.get('mid', 0), nops), nops})    # root, one intermediate view, final view
+    for p in PIPES:
+      for v in [views[p][k] for k in focus]:
+        for child in (v.preprocess_client(_cfn(['mark'])), v.preprocess_batch(_bfn(['mul', 3])), v.slice(alt, None),
+                      v.slice(None, b''), fdm.SubsetFederatedData(v, [])):
+          _call(lambda c=child: int(c.num_clients()))
+          _stream(child.clients())
+    # the same chains given to the constructors directly (another entry point): slices / subsets applied afterwards
+    cfns = [_cfn(o[1]) for o in case['ops'] if o[0] == 'prec']
+    bfns = [_bfn(o[1]) for o in case['ops'] if o[0] == 'preb']
+    ctor = {'mem': imm.InMemoryFederatedData(mapping, fdm.ClientPreprocessor(cfns), cdm.BatchPreprocessor(bfns)),
+            'sql': sqm.SQLiteFederatedData(conn3, sqm.decompress_and_deserialize, None, None,
+                                           preprocess_client=fdm.ClientPreprocessor(cfns),
+                                           preprocess_batch=cdm.BatchPreprocessor(bfns))}
+    ctor_obs = {}
+    for p, cur in ctor.items():
+      for oi, o in enumerate(case['ops']):
+        if o[0] in ('slice', 'subset'):
+          cur, _r, _ok = _apply(fdm, cur, o, forms + oi + 1)
+      ctor_obs[p] = _observe(cur, universe, reqs, buf, seed, None, forms)
     # every view again, after all of its descendants exist
     # (this time with interleaved access: while one path is iterated, others are used on the same
     # view, on the root, on the parent and on the child)
     after = {}
-    for p in PIPES:
+    for pi, p in enumerate(PIPES):
       after[p] = []
       for k, v in enumerate(views[p]):
         others = [w for w in {id(w): w for w in [views[p][0], views[p][max(k - 1, 0)], views[p][min(k + 1, len(views[p]) - 1)]]}.values()
                   if w is not v]
-        after[p].append(_observe(v, universe, reqs, case['buf'], case['seed'], others))
-    changed = [[p, k] for p in PIPES for k in range(len(views[p]))
-               if before[p][k] != {f: x for f, x in after[p][k].items() if f != 'inter'}]
-    return {'views': after, 'refused': refused, 'changed': changed}
+        after[p].append(_observe(v, universe, reqs, buf, seed, others if k in focus else None, forms + pi))
+
+    def stable(o):   # with seed=None two shuffles legitimately differ
+      return {f: x for f, x in o.items() if f != 'inter' and not (f == 'shuffled' and seed is None)}
+    changed = [[p, k] for p in PIPES for k in range(len(views[p])) if stable(before[p][k]) != stable(after[p][k])]
+    return {'views': after, 'refused': refused, 'changed': changed, 'ctor': ctor_obs,
+            'caller_intact': bool(intact and _snapshot(owned) == snap and all_ids_set == set(ids) and
+                                  list(owned) == ids and all(list(e) == list(_examples([], wk)) for e in owned.values())),
+            'kept_intact': all((_dsobs(kept[p]) if ids else None) == kept_before[p] for p in PIPES),
+            'defaults_intact': fdm.NoOpClientPreprocessor._fns == () and cdm.NoOpBatchPreprocessor._fns == ()}
   finally:
     for c in conns:
       try:
@@ -548,17 +748,22 @@ def reference(case):
   return stored, out, refused
 
 
-def _ref_dataset(stored, cid, cc, bc):
+def _ref_dataset(stored, cid, cc, bc, wk=0):
   x = list(stored[cid])
-  y = [[2 * v, 2 * v + 1] for v in x]
+  orig = list(x)          # the stored x of each surviving row: y and w are functions of it
   for f in cc:            # client-level functions first, in registration order
-    x, y = _ref_c(f, cid, x, y)
+    x, orig = _ref_c(f, cid, x, orig)
   ax = list(x)
   for g in bc:            # then batch-level functions, in registration order
     ax = _ref_b(g, ax)
-  fy = [v for row in y for v in row]
-  meta = 'x:int64:;y:int32:2' + (';z:int16:' if any(f[0] == 'mark' for f in cc) else '')
-  return {'x': x, 'ax': ax, 'y': fy, 'ay': fy, 'n': len(x), 'meta': meta}
+  fy = [v for o in orig for v in (2 * o, 2 * o + 1)]
+  w = _wcol(orig, wk)
+  meta = ('w:' + ('bool' if WKINDS[wk] == 'bool' else 'int32' if WKINDS[wk] == 'int32big' else WKINDS[wk]) + ':;' if w is not None else '') + \
+      'x:int64:;y:int32:2' + (';z:int16:' if any(f[0] == 'mark' for f in cc) else '')
+  r = {'x': x, 'ax': ax, 'y': fy, 'ay': fy, 'n': len(x), 'meta': meta}
+  if w is not None:
+    r['w'] = r['aw'] = _wobs(w)
+  return r
 
 
 def _canon(o):
@@ -569,6 +774,7 @@ def _canon(o):
   c['clients'] = [sorted(o['clients'][0], key=lambda kv: kv[0])] + o['clients'][1:]
   c['shuffled'] = [sorted(o['shuffled'][0], key=lambda kv: kv[0]), o['shuffled'][1]]
   c.pop('inter', None)
+  c.pop('gets_form', None)
   return c
 
 
@@ -584,71 +790,102 @@ def oracle(case, obs):
     assert _blt(a, b) and a < b and not _blt(b, a)
   universe = [unhx(i) for i, _ in case['ds']] + [unhx(a) for a in case['aliens']]
   reqs = [[unhx(i) for i in r] for r in case['reqs']]
+  wk, seed = case.get('wk', 0), case['seed']
+
+  def check_view(where, o, vis, cc, bc, bad):
+    want = {i: _ref_dataset(stored, i, cc, bc, wk) for i in vis}
+    items = [[hx(i), want[i]] for i in vis]
+    if o['num'] != ['V', len(vis)]:
+      bad('num-clients', f'{where}: num_clients {o["num"]}, the view has {len(vis)} clients')
+    if o['ids'][0] != 'V' or sorted(o['ids'][1]) != sorted(hx(i) for i in vis):
+      bad('client-ids', f'{where}: client_ids {o["ids"]} differ from the ids inside every requested range and subset {sorted(hx(i) for i in vis)}')
+    if o['sizes'][0] != 'V' or sorted(o['sizes'][1]) != sorted([hx(i), len(stored[i])] for i in vis):
+      bad('client-sizes', f'{where}: client_sizes {o["sizes"]} differ from the stored example counts of the view')
+    for i, r in zip(universe, o['size']):
+      if i in vis and r != ['V', len(stored[i])]:
+        bad('client-size', f'{where}: client_size({i!r}) = {r}, stored count is {len(stored[i])}')
+      if i not in vis and r != ['K']:
+        bad('outside-keyerror', f'{where}: client_size({i!r}) = {r} for an id outside the view (KeyError expected)')
+    cl = o['clients']
+    if cl[1] != 'D' or sorted(cl[0], key=lambda kv: kv[0]) != sorted(items, key=lambda kv: kv[0]):
+      bad('clients', f'{where}: clients() does not yield every client of the view once with its preprocessed examples '
+          f'(got {[c for c, _ in cl[0]]} ending {cl[1]})')
+    if not o['det']:
+      bad('deterministic-order', f'{where}: two iterations of clients() / client_ids() differ')
+    sh = o['shuffled']
+    n = len(vis)
+
+    def is_pass(ps):
+      return sorted(ps, key=lambda kv: kv[0]) == sorted(items, key=lambda kv: kv[0])
+    if sh[1] != 'D' or len(sh[0]) != 2 * n or not is_pass(sh[0][:n]) or not is_pass(sh[0][n:]):
+      bad('shuffled-pass', f'{where}: a pass of shuffled_clients() does not visit every client of the view exactly once')
+    it = o.get('inter')
+    if it is not None:
+      plain = {'clients': o['clients'], 'ids': [o['ids'][1], 'D'] if o['ids'][0] == 'V' else o['ids'],
+               'sizes': [o['sizes'][1], 'D'] if o['sizes'][0] == 'V' else o['sizes'],
+               'shuffled': [sh[0][:n], sh[1]]}
+      for path in ('clients', 'ids', 'sizes', 'shuffled'):
+        same = it[path][:2] == plain[path]
+        if path == 'shuffled' and seed is None:       # unseeded: any permutation
+          same = it[path][1] == 'D' and is_pass(it[path][0])
+        if not same:
+          bad('interleaved-iteration-differs',
+              f'{where}: {path} iterated while other access paths are used in between yields '
+              f'{[x[0] if isinstance(x, list) else x for x in it[path][0]]} ending {it[path][1]}, but '
+              f'{[x[0] if isinstance(x, list) else x for x in plain[path][0]]} ending {plain[path][1]} when iterated alone')
+      if not it['probes_ok']:
+        bad('interleaved-iteration-differs', f'{where}: a query made during an iteration answers differently: {it["first_bad"]}')
+      if it['two_live'] != [cl[0], cl[0]]:
+        bad('interleaved-iteration-differs', f'{where}: two live clients() iterators advanced alternately yield '
+            f'{[[c for c, _ in l] if isinstance(l, list) else l for l in it["two_live"]]}, each should yield {[c for c, _ in cl[0]]}')
+      if o['ids'][0] == 'V' and it['two_live_ids'] != ['V', [[i, i] for i in o['ids'][1]]]:
+        bad('interleaved-iteration-differs', f'{where}: two live client_ids() iterators zipped yield {it["two_live_ids"]}')
+      if it['pieces'] != ['V', cl[0]]:
+        bad('interleaved-iteration-differs', f'{where}: one clients() pass consumed in pieces (islice, iter(), rest) yields '
+            f'{it["pieces"][1] if it["pieces"][0] != "V" else [c for c, _ in it["pieces"][1]]}')
+      if it['broken_for'] != ['V', cl]:
+        bad('interleaved-iteration-differs', f'{where}: a full clients() pass after an abandoned for loop differs')
+    if not sh[2]['contract']:
+      bad('rng-contract', f'{where}: shuffled_clients used its RandomState outside the modelled contract '
+          '(shuffle(list) permutes, randint(buffer_size) in [0, buffer_size))')
+    for i, r in zip(universe, o['get']):
+      if i in vis and r != ['V', want[i]]:
+        bad('get-client', f'{where}: get_client({i!r}) = {r}, expected {want[i]} (client chain {cc} then batch chain {bc})')
+      if i not in vis and r != ['K']:
+        bad('outside-keyerror', f'{where}: get_client({i!r}) = {r} for an id outside the view (KeyError expected)')
+    for req, g, form in zip(reqs, o['gets'], o.get('gets_form', [['list']] * len(reqs))):
+      exp, end = [], 'D'
+      for i in req:
+        if i not in vis:
+          end = 'K'
+          break
+        exp.append([hx(i), want[i]])
+      if g[0] != exp or g[1] != end:
+        bad('get-clients-order', f'{where}: get_clients({req!r} as {form[0]}) gave {[c for c, _ in g[0]]} ending {g[1:]}, '
+            f'expected {[c for c, _ in exp]} in request order ending {end}')
+      if form[0] == 'oneshot' and (form[1] > len(req) or (end == 'D' and (form[1] != len(req) or not form[2]))):
+        bad('argument-form', f'{where}: get_clients consumed {form[1]} of {len(req)} ids of a one-shot iterator '
+            f'(exhausted: {form[2]}); a complete request must be consumed exactly once and completely')
+
   for p in PIPES:
     if obs['refused'][p] != ref_refused:
       bad('subset-validation', f'{p}: SubsetFederatedData accepted ids outside its base or refused ids inside it: '
           f'{obs["refused"][p]} expected {ref_refused}')
     for k, o in enumerate(obs['views'][p]):
       vis, cc, bc = ref[k]
-      where = f'{p} after {k} operations'
-      want = {i: _ref_dataset(stored, i, cc, bc) for i in vis}
-      if o['num'] != ['V', len(vis)]:
-        bad('num-clients', f'{where}: num_clients {o["num"]}, the view has {len(vis)} clients')
-      if o['ids'][0] != 'V' or sorted(o['ids'][1]) != sorted(hx(i) for i in vis):
-        bad('client-ids', f'{where}: client_ids {o["ids"]} differ from the ids inside every requested range and subset {sorted(hx(i) for i in vis)}')
-      if o['sizes'][0] != 'V' or sorted(o['sizes'][1]) != sorted([hx(i), len(stored[i])] for i in vis):
-        bad('client-sizes', f'{where}: client_sizes {o["sizes"]} differ from the stored example counts of the view')
-      for i, r in zip(universe, o['size']):
-        if i in vis and r != ['V', len(stored[i])]:
-          bad('client-size', f'{where}: client_size({i!r}) = {r}, stored count is {len(stored[i])}')
-        if i not in vis and r != ['K']:
-          bad('outside-keyerror', f'{where}: client_size({i!r}) = {r} for an id outside the view (KeyError expected)')
-      cl = o['clients']
-      if cl[1] != 'D' or sorted(c[0] for c in cl[0]) != sorted(hx(i) for i in vis) or \
-          any(d != want[unhx(c)] for c, d in cl[0] if unhx(c) in want):
-        bad('clients', f'{where}: clients() does not yield every client of the view once with its preprocessed examples')
-      if not o['det']:
-        bad('deterministic-order', f'{where}: two iterations of clients() / client_ids() differ')
-      sh = o['shuffled']
-      n = len(vis)
-      passes = [sh[0][:n], sh[0][n:]]
-      if sh[1] != 'D' or len(sh[0]) != 2 * n or any(
-          sorted(c for c, _ in ps) != sorted(hx(i) for i in vis) or any(d != want.get(unhx(c)) for c, d in ps)
-          for ps in passes):
-        bad('shuffled-pass', f'{where}: a pass of shuffled_clients() does not visit every client of the view exactly once')
-      it = o.get('inter')
-      if it is not None:
-        plain = {'clients': o['clients'], 'ids': [o['ids'][1], 'D'] if o['ids'][0] == 'V' else o['ids'],
-                 'sizes': [o['sizes'][1], 'D'] if o['sizes'][0] == 'V' else o['sizes'],
-                 'shuffled': [sh[0][:n], sh[1]]}
-        for path in ('clients', 'ids', 'sizes', 'shuffled'):
-          if it[path][:2] != plain[path]:
-            bad('interleaved-iteration-differs',
-                f'{where}: {path} iterated while other access paths are used in between yields '
-                f'{[x[0] if isinstance(x, list) else x for x in it[path][0]]} ending {it[path][1]}, but '
-                f'{[x[0] if isinstance(x, list) else x for x in plain[path][0]]} ending {plain[path][1]} when iterated alone')
-        if not it['probes_ok']:
-          bad('interleaved-iteration-differs', f'{where}: a query made during an iteration answers differently: {it["first_bad"]}')
-      if not sh[2]['contract']:
-        bad('rng-contract', f'{where}: shuffled_clients used its RandomState outside the modelled contract '
-            '(shuffle(list) permutes, randint(buffer_size) in [0, buffer_size))')
-      for i, r in zip(universe, o['get']):
-        if i in vis and r != ['V', want[i]]:
-          bad('get-client', f'{where}: get_client({i!r}) = {r}, expected {want[i]} (client chain {cc} then batch chain {bc})')
-        if i not in vis and r != ['K']:
-          bad('outside-keyerror', f'{where}: get_client({i!r}) = {r} for an id outside the view (KeyError expected)')
-      for req, g in zip(reqs, o['gets']):
-        exp, end = [], 'D'
-        for i in req:
-          if i not in vis:
-            end = 'K'
-            break
-          exp.append([hx(i), want[i]])
-        if g[0] != exp or g[1] != end:
-          bad('get-clients-order', f'{where}: get_clients({req!r}) gave {[c for c, _ in g[0]]} ending {g[1:]}, '
-              f'expected {[c for c, _ in exp]} in request order ending {end}')
+      check_view(f'{p} after {k} operations', o, vis, cc, bc, bad)
+  for p, o in obs.get('ctor', {}).items():
+    vis, cc, bc = ref[-1]
+    check_view(f'{p} built with the preprocessor chains as constructor arguments, then sliced', o, vis, cc, bc,
+               lambda key, msg: bad('ctor-chain-differs', f'[{key}] {msg}'))
   for p, k in obs['changed']:
     bad('parent-changed', f'{p}: the view after {k} operations answers differently once further views were derived from it')
+  if not obs.get('caller_intact', True):
+    bad('caller-data-changed', 'the mapping / arrays / id containers handed to the constructors were modified')
+  if not obs.get('kept_intact', True):
+    bad('kept-result-changed', 'a ClientDataset obtained at the start reads differently after later operations')
+  if not obs.get('defaults_intact', True):
+    bad('shared-default-mutated', 'NoOpClientPreprocessor / NoOpBatchPreprocessor (shared defaults) now hold functions')
   for p, q in itertools.combinations(PIPES, 2):
     for k, (a, b) in enumerate(zip(obs['views'][p], obs['views'][q])):
       if _canon(a) != _canon(b):
